@@ -23,6 +23,8 @@ enum Scenario {
     /// call A (large) is abandoned after exactly `k` bytes were accepted; call B is issued after
     /// the abandonment, or (queued) was already waiting for the writer when A was abandoned
     ClientAbandon { kind: Kind, k: usize, queued: bool },
+    /// the same AsyncClient scenario with `Cli::call` going through forward_message (all / even tags)
+    WithApi(clients::Api, Box<Scenario>),
     /// AsyncServer with a write timeout: response stalls after `k` bytes past the deadline
     AsyncServerWriteTimeout { k: usize, pipelined: bool },
     /// AsyncServer, pipelined requests, response stream stalled after `k` bytes then released;
@@ -87,6 +89,14 @@ fn scenarios(tier: Tier) -> Vec<Scenario> {
     v.push(Scenario::BlockingServerWriteTimeout);
     v.push(Scenario::BlockingServerLarge);
     v.push(Scenario::BlockingClientWriteTimeout);
+    // the relay API of the AsyncClient on every client scenario (appended: earlier indices stay put)
+    let base: Vec<Scenario> = v.clone();
+    for sc in base {
+        if matches!(&sc, Scenario::ClientWriters { kind: Kind::Async, .. } | Scenario::ClientAbandon { kind: Kind::Async, .. }) {
+            v.push(Scenario::WithApi(clients::Api::Forward, Box::new(sc.clone())));
+            v.push(Scenario::WithApi(clients::Api::Mixed, Box::new(sc)));
+        }
+    }
     v
 }
 
@@ -534,6 +544,12 @@ fn blocking_client_write_timeout() -> (Bad, u64) {
 
 fn run_one(rt: &tokio::runtime::Runtime, sc: &Scenario) -> (Bad, u64) {
     match sc {
+        Scenario::WithApi(api, inner) => {
+            clients::set_api(*api);
+            let (bad, flags) = run_one(rt, inner);
+            clients::set_api(clients::Api::Call);
+            (bad.into_iter().map(|(k, w)| (k, format!("{w} [AsyncClient API: {api:?} = forward_message for all / even-tagged calls]"))).collect(), flags)
+        }
         Scenario::ClientWriters { kind, pads, stall } => rt.block_on(client_writers(*kind, pads, *stall)),
         Scenario::ClientAbandon { kind, k, queued } => rt.block_on(client_abandon(*kind, *k, *queued)),
         Scenario::AsyncServerWriteTimeout { k, pipelined } => rt.block_on(async_server_write_timeout(*k, *pipelined)),
